@@ -62,7 +62,8 @@ def make_beads(rng, balanced, container='float', force_low_pile=False, force_low
     else:
         sizes = [int(rng.integers(200, 801)) for _ in range(K)]
     if big:
-        sizes = [int(v) * 16 for v in sizes]          # a bead sample of tens of thousands of events (more than 2^16 in total)
+        f_ = max(16, int(np.ceil(150000.0 / sum(sizes))))
+        sizes = [int(v) * f_ for v in sizes]          # a bead sample of 150 000 events or more
     truth = np.repeat(np.arange(K), sizes)
     N = len(truth)
     cols, laws, mefs, rfis, atlimit = [], [], [], [], []
@@ -378,6 +379,11 @@ def run(ctx):
                 ctx.check((not ya.raised) and (not yb.raised) and np.asarray(ya.value).tobytes() == np.asarray(yb.value).tobytes(),
                           'short-form-differs-from-full-output' + tag, cid, **desc)
             perm = rng.permutation(len(truth))
+            if len(truth) > 100000 or cid[1] % 9 == 4:
+                # events grouped by the subpopulation that generated them (a sorted or concatenated file) is an order too
+                perm = np.argsort(truth, kind='stable')
+                if rng.random() < 0.5:
+                    perm = perm[::-1]
             sp = s[perm]
             with np.errstate(all='ignore'):
                 o3 = run_once(F, sp, bd, mv_arg, chans_arg, cl_ch, stat, seed)
